@@ -1042,16 +1042,34 @@ Section Reverse.
       | (c1, Some sid) => drive false rev_bool_step (S (length h)) c1 (sid, end_, None)
       end.
 
-  (* lazy.go: nfaFallbackReverse / the fallback of IsMatchReverse: d.pikevm.Search on the slice
-     haystack[start:end] with the DFA's own, i.e. the REVERSE, NFA.  Reverse NFAs have Sparse
-     states with overlapping ranges (not wf_nfa): the fallback is the PikeVM model of Pike.v,
-     which follows all matching transitions as nfa/pikevm.go does; nfa.ReverseAnchored marks
-     its result anchored (NFA.IsAnchored), so PikeVM.Search tries position 0 of the slice only. *)
+  (* lazy.go: nfaFallbackReverse (also the fallback of IsMatchReverse), after fix f6a852a: the
+     PikeVM of the DFA's own, i.e. the REVERSE, NFA is run in longest mode over a REVERSED COPY of
+     haystack[start:end]; only a match that begins at position 0 of the copy (= ends at end_) is
+     accepted, and its end e gives the start end_ - e.  In longest mode the reported span does not
+     depend on thread priority, so the model is the plain set simulation anchored at 0: all
+     matching transitions are followed (reverse NFAs have Sparse states with overlapping ranges,
+     they are not wf_nfa), the last position at which a Match state is in the set is the answer.
+     (Before the fix the PikeVM scanned the slice FORWARDS: rev_fallback_original.) *)
   Definition rev_slice (end_ : nat) : hay := firstn (end_ - start_) (skipn start_ h).
+  Fixpoint rsim_loop (bs : list N) (cur : list nat) (pos : nat) (last : option nat) : option nat :=
+    let last' := if contains_match A cur then Some pos else last in
+    match bs with
+    | [] => last'
+    | b :: t =>
+        match closure A ls_none (flat_map (fun q => byte_targets A q b) cur) with
+        | [] => last'
+        | nxt => rsim_loop t nxt (S pos) last'
+        end
+    end.
   Definition rev_fallback (end_ : nat) : option nat :=
-    match pike_search_at_g A (rev_slice end_) true 0 with Done (Some (s, _)) => Some (start_ + s) | _ => None end.
+    match rsim_loop (rev (rev_slice end_)) (closure A ls_none [start_anch A]) 0 None with
+    | Some e => Some (end_ - e)
+    | None => None
+    end.
   Definition rev_fallback_bool (end_ : nat) : bool :=
-    match pike_search_at_g A (rev_slice end_) true 0 with Done (Some _) => true | _ => false end.
+    match rev_fallback end_ with Some _ => true | None => false end.
+  Definition rev_fallback_original (end_ : nat) : option nat :=
+    match pike_search_at_g A (rev_slice end_) true 0 with Done (Some (s, _)) => Some (start_ + s) | _ => None end.
 End Reverse.
 
 Definition dfa_search_reverse (A : nfa) (cfg : dconfig) (c : cache) (h : hay) (start_ end_ : nat) : cache * option nat :=
